@@ -291,9 +291,28 @@ def conv_validate_data(rec):
             else:
                 tr[k] = None
         c["track"] = tr
-    o = ["ok", "", None] if r[0] == "ok" else ["err", r[1], None]
+    o = c12_obs(rec, r)
     # the oracle's reading of track validation is "may fail"; applicable as it is
     return [item("C12", c, o)]
+
+
+def c12_obs(rec, r):
+    """observation of a C12 `data` case: [ok|err, class, None, which raise statement fired (from the recorded message, as harness/c12.py
+    reads it off the live exception)]"""
+    if r[0] == "ok":
+        return ["ok", "", None]
+    from harness import c12
+
+    msg = rec["out"].get("msg", "")
+    if r[1] == "KeyError":
+        fault = "FKey"
+    elif r[1] == "IndexError":
+        fault = "FIndex"
+    elif r[1] == "ValueError":
+        fault = next((f for pat, f in c12.FAULTS if pat in msg), "FUnknown")
+    else:
+        fault = "FUnknown"
+    return ["err", r[1], None, fault]
 
 
 def conv_sphere(rec):
@@ -306,7 +325,7 @@ def conv_sphere(rec):
     n = s["shape"][0]
     c = {"kind": "data", "cfg": [False, True, False, False, False], "directed": True, "dt": "uint64", "ids": list(range(n)), "edges": [],
          "axes": [], "sphere": s, "ellipsoid": None, "track": None}
-    return [item("C12", c, ["ok", "", None] if r[0] == "ok" else ["err", r[1], None])]
+    return [item("C12", c, c12_obs(rec, r))]
 
 
 def conv_ellipsoid(rec):
@@ -321,7 +340,7 @@ def conv_ellipsoid(rec):
     n = e["shape"][0]
     c = {"kind": "data", "cfg": [False, False, True, False, False], "directed": True, "dt": "uint64", "ids": list(range(n)), "edges": [],
          "axes": [x.get("type") for x in (axes or [])], "sphere": None, "ellipsoid": e, "track": None}
-    return [item("C12", c, ["ok", "", None] if r[0] == "ok" else ["err", r[1], None])]
+    return [item("C12", c, c12_obs(rec, r))]
 
 
 # ---- C13 / C14 -------------------------------------------------------------------------------------------------
@@ -361,30 +380,24 @@ def conv_tracks(rec):
 
 # ---- C11 -------------------------------------------------------------------------------------------------------
 def c11_elem(x):
-    """one numeric ndarray -> element of a C11 case"""
+    """one ndarray -> element of a C11 case (the driver's own abstraction: dtype with byte order / width, shape, payload)"""
     from harness import c11
 
     if not isinstance(x, np.ndarray):
         raise Skip("element is not an ndarray")
-    if x.dtype.kind not in "biuf":
-        raise Skip("string / bytes / object elements are outside the Coq model of C11")
     try:
-        return c11.abstract(x)
-    except HarnessError as e:
-        raise Skip(str(e)) from None
-
-
-def c11_case_elem(e):
-    return {"dt": e["dt"], "shape": e["shape"], "flat": e["flat"]}
+        return c11.xabstract(x)
+    except (HarnessError, KeyError, ValueError, TypeError) as e:
+        raise Skip(f"element outside the driver's encoding: {e}") from None
 
 
 def conv_serialize(rec):
-    from harness.common import enc_array
+    from harness import c11
 
     a = dec_any(rec["args"]["prop_dict"])
     if not isinstance(a, dict) or not isinstance(a.get("values"), np.ndarray) or a["values"].dtype != object or a["values"].ndim != 1:
         raise Skip("values is not a 1-D object array")
-    vals = [c11_case_elem(c11_elem(x)) for x in a["values"]]
+    vals = [c11_elem(x) for x in a["values"]]
     miss = a.get("missing")
     c = {"kind": "ser", "vals": vals, "missing": None if miss is None else [bool(b) for b in np.asarray(miss).tolist()]}
     r = out_of(rec)
@@ -393,10 +406,9 @@ def conv_serialize(rec):
     else:
         values, m, data = r[1]
         try:
-            o = ["ok", values.tolist() if values.ndim == 2 else [], enc_array(data), common.dtype_name(data.dtype), str(values.dtype),
-                 None if m is None else [bool(b) for b in m]]
-        except HarnessError as e:
-            raise Skip(str(e)) from None
+            o = ["ok", values.tolist() if values.ndim == 2 else [], c11.miss_list(m), c11.enc_flat(data), c11.xdt_of(data.dtype), str(values.dtype)]
+        except (HarnessError, KeyError, ValueError, TypeError) as e:
+            raise Skip(f"output outside the driver's encoding: {e}") from None
     return [item("C11", c, o)]
 
 
@@ -407,21 +419,23 @@ def conv_deserialize(rec):
     values, data = a["values"], a["data"]
     if not isinstance(values, np.ndarray) or not isinstance(data, np.ndarray) or values.ndim != 2 or data.ndim != 1:
         raise Skip("values / data are not arrays of rank 2 / 1")
-    if values.dtype.kind not in "iu" or data.dtype.kind not in "biuf":
-        raise Skip("table or data dtype outside the model")
+    if values.dtype.kind not in "iu":
+        raise Skip("table dtype outside the model")
+    miss = a.get("missing")
     try:
-        dflat = common.enc_array(data)
-    except HarnessError as e:
-        raise Skip(str(e)) from None
-    c = {"kind": "deser", "rows": [[int(x) for x in row] for row in values.tolist()], "data": dflat}
+        c = {"kind": "deser", "rows": [[int(x) for x in row] for row in values.tolist()], "data": c11.enc_flat(data), "xdt": c11.xdt_of(data.dtype),
+             "missing": None if miss is None else [bool(b) for b in np.asarray(miss).tolist()]}
+    except (HarnessError, KeyError, ValueError, TypeError) as e:
+        raise Skip(f"data outside the driver's encoding: {e}") from None
     r = out_of(rec)
     if r[0] == "err":
         o = ["err", r[1]]
     else:
         try:
-            o = ["ok", [c11.abstract(x) for x in r[1]["values"]]]
-        except HarnessError as e:
-            raise Skip(str(e)) from None
+            el = c11.obs_elems(None, list(r[1]["values"]))
+        except (HarnessError, KeyError, ValueError, TypeError) as e:
+            raise Skip(f"output outside the driver's encoding: {e}") from None
+        o = ["err", "OtherExn"] if el is None else ["ok", el, c11.miss_list(r[1]["missing"])]
     # the driver's 'deser' kind has no oracle (the round trip is judged on 'rt' cases)
     return [item("C11", c, o)]
 
@@ -439,12 +453,9 @@ def conv_construct(rec):
         if x is None:
             seq.append(None)
         elif isinstance(x, np.ndarray):
-            if x.dtype.kind in "USO":
-                seq.append({"py": x.tolist()})
-            else:
-                seq.append(c11_case_elem(c11_elem(x)))
+            seq.append(c11_elem(x))
         elif isinstance(x, np.generic):
-            seq.append(c11_case_elem(c11_elem(np.asarray(x))))
+            seq.append(c11_elem(np.asarray(x)))
         elif isinstance(x, (list, tuple, int, float, bool, str)):
             seq.append({"py": list(x) if isinstance(x, tuple) else x})
         else:
@@ -455,25 +466,18 @@ def conv_construct(rec):
         o = ["err", r[1]]
     else:
         d = r[1]
-        vals = list(d["values"])
-        if any(not isinstance(v, np.ndarray) for v in vals):
-            o = ["err", "OtherExn"]
-        else:
-            vals = [np.zeros_like(v) if x is None and v.dtype.kind not in "USO" else v for x, v in zip(seq, vals)]
-            try:
-                o = ["ok", [c11.abstract(v) if v.dtype.kind not in "USO" else {"dt": common.dtype_name(v.dtype), "shape": list(v.shape), "flat": v.ravel().tolist()}
-                            for v in vals], None if d["missing"] is None else [bool(b) for b in d["missing"]]]
-            except HarnessError as e:
-                raise Skip(str(e)) from None
-    # floats inside nested python lists must be exact too (the model starts from np.asarray of them)
+        try:
+            el = c11.obs_elems(seq, list(d["values"]))
+        except (HarnessError, KeyError, ValueError, TypeError) as e:
+            raise Skip(f"output outside the driver's encoding: {e}") from None
+        o = ["err", "OtherExn"] if el is None else ["ok", el, c11.miss_list(d["missing"])]
+    # what the model starts from (np.asarray of nested python lists) must be inside the encoding too
     try:
         for x in seq:
             if x is not None and "py" in x:
-                arr = np.asarray(x["py"])
-                if arr.dtype.kind == "f":
-                    common.enc_array(arr)
-    except HarnessError as e:
-        raise Skip(str(e)) from None
+                c11.xabstract(c11.as_array(x))
+    except (HarnessError, KeyError, ValueError, TypeError) as e:
+        raise Skip(f"python value outside the driver's encoding: {e}") from None
     return [item("C11", c, o)]
 
 
